@@ -174,6 +174,8 @@ def to_int(e, src, dst):
     if not is_sym(e):
         return conc_cast(e, src, dst)
     if z3.is_bv(e):
+        if src is not None and src.kind in 'iu' and src.itemsize * 8 == w:
+            return e
         ws = e.size()
         if ws == w:
             return e
@@ -494,8 +496,17 @@ def r_cmp(op, x, y):
 # integer arithmetic
 
 
+_BVV = {}
+
+
 def _bvv(v, w):
-    return z3.BitVecVal(int(v), w)
+    k = (int(v), w)
+    r = _BVV.get(k)
+    if r is None:
+        r = z3.BitVecVal(k[0], w)
+        if len(_BVV) < 200000:
+            _BVV[k] = r
+    return r
 
 
 def _as_int_term(e, signed):
@@ -719,3 +730,79 @@ def ite(c, a, b, dt=None):
         la = z3.ToReal(la) if la.is_int() else la
         lb = z3.ToReal(lb) if lb.is_int() else lb
     return z3.If(c, la, lb)
+
+
+# ---------------------------------------------------------------------------------------------
+# "possibly-one bits" analysis of bit-vector terms (sound over-approximation; used to discharge table-index range
+# conditions without a solver call).  HINTS maps the id of an input symbol to a mask the harness has *assumed* for it.
+
+_MB = {}
+HINTS = {}
+
+
+def maybe_bits(t):
+    """Mask of the bits of bit-vector term t that may be 1."""
+    if not is_sym(t):
+        return int(t)
+    k = t.get_id()
+    hit = _MB.get(k)
+    if hit is not None:
+        return hit[1]
+    w = t.size()
+    full = (1 << w) - 1
+    r = full
+    if z3.is_bv_value(t):
+        r = t.as_long()
+    elif z3.is_app(t):
+        kind = t.decl().kind()
+        ch = t.children()
+        if kind == z3.Z3_OP_UNINTERPRETED and not ch:
+            r = HINTS.get(k, full)
+        elif kind == z3.Z3_OP_BAND:
+            r = full
+            for c in ch:
+                r &= maybe_bits(c)
+        elif kind in (z3.Z3_OP_BOR, z3.Z3_OP_BXOR):
+            r = 0
+            for c in ch:
+                r |= maybe_bits(c)
+        elif kind == z3.Z3_OP_BADD:
+            r = 0
+            ok = True
+            for c in ch:
+                m = maybe_bits(c)
+                if r & m:
+                    ok = False
+                r |= m
+            if not ok:
+                # carries possible: everything up to one above the highest possible bit of the sum bound
+                bound = 0
+                for c in ch:
+                    bound += maybe_bits(c)
+                r = min(full, (1 << bound.bit_length()) - 1)
+        elif kind == z3.Z3_OP_BMUL and len(ch) == 2 and (z3.is_bv_value(ch[0]) or z3.is_bv_value(ch[1])):
+            c, x = (ch[0], ch[1]) if z3.is_bv_value(ch[0]) else (ch[1], ch[0])
+            cv = c.as_long()
+            m = maybe_bits(x)
+            if cv & (cv - 1) == 0 and cv:
+                r = (m << (cv.bit_length() - 1)) & full
+            else:
+                r = min(full, (1 << (m * cv).bit_length()) - 1)
+        elif kind == z3.Z3_OP_BSHL and z3.is_bv_value(ch[1]):
+            r = (maybe_bits(ch[0]) << ch[1].as_long()) & full
+        elif kind == z3.Z3_OP_BLSHR and z3.is_bv_value(ch[1]):
+            r = maybe_bits(ch[0]) >> ch[1].as_long()
+        elif kind == z3.Z3_OP_ZERO_EXT:
+            r = maybe_bits(ch[0])
+        elif kind == z3.Z3_OP_EXTRACT:
+            hi, lo = t.params()
+            r = (maybe_bits(ch[0]) >> lo) & ((1 << (hi - lo + 1)) - 1)
+        elif kind == z3.Z3_OP_CONCAT:
+            r = 0
+            for c in ch:
+                r = (r << c.size()) | maybe_bits(c)
+        elif kind == z3.Z3_OP_ITE:
+            r = maybe_bits(ch[1]) | maybe_bits(ch[2])
+    if len(_MB) < 2000000:
+        _MB[k] = (t, r)
+    return r
